@@ -204,6 +204,39 @@ fn check_encoding(enc: &'static Encoding, st: &mut Stats) -> Option<String> {
                 }
             }
         }
+        // every ASCII byte DIRECTLY after each atom (0x3A after a gb18030 lead is a neighbour of the
+        // four-byte digits), in one piece and with the input cut right after the atom
+        for a in &atoms {
+            if !a.iter().any(|b| *b >= 0x80) {
+                continue;
+            }
+            for l in [0usize, 13] {
+                for b in 0..0x80u8 {
+                    let mut v: Vec<u8> = (0..l).map(|i| b' ' + (i % 90) as u8).collect();
+                    v.extend_from_slice(a);
+                    let cut = v.len();
+                    v.push(b);
+                    v.extend_from_slice(b"\x81\x30ok");
+                    let want: Vec<u32> = crate::model_dec::with_replacement(&crate::model_dec::decode(algo, &v));
+                    for (sink, cap) in [(Sink::Utf8, 0usize), (Sink::Utf16, 0), (Sink::Utf8, 5), (Sink::Utf16, 3)] {
+                        for cuts in [vec![], vec![cut], vec![cut - 1]] {
+                            st.evals += 1;
+                            let mut h = DecHistory::simple(enc, BomMode::None, sink, true, &v);
+                            if cap > 0 {
+                                h.caps = vec![cap];
+                            }
+                            h.cuts = cuts;
+                            let o = drv.run(&h);
+                            let got = if o.completed { o.scalars(sink) } else { None };
+                            let ascii_of = |v: &Vec<u32>| v.iter().cloned().filter(|c| *c < 0x80).collect::<Vec<u32>>();
+                            if got.as_ref().map(|g| ascii_of(g)) != Some(ascii_of(&want)) {
+                                return Some(format!("is_ascii_compatible() = {} / is_single_byte() = {} but the ASCII byte {:02X} directly after the sequence {} does not survive: decoding {} (cuts {:?}, {}-unit {} buffer) gives {:X?}, the Standard {:X?}", enc.is_ascii_compatible(), enc.is_single_byte(), b, fw::hex(a), fw::hex(&v), h.cuts, cap, sink.name(), got, want));
+                            }
+                        }
+                    }
+                }
+            }
+        }
         if enc.is_ascii_compatible() {
             let mut edrv = crate::drive_enc::EncDriver::new();
             let ealgo = crate::model_enc::enc_algo_for(enc);
@@ -216,6 +249,25 @@ fn check_encoding(enc: &'static Encoding, st: &mut Stats) -> Option<String> {
                     text.push(x);
                     text.extend(digits.iter().map(|b| *b as u32));
                     let want = crate::model_enc::encode(ealgo, &text, true).bytes;
+                    if l % 8 == 3 {
+                        // UTF-16 only: an unpaired surrogate between the character and the ASCII tail
+                        for sur in [0xD800u32, 0xDBFF, 0xDC00] {
+                            let mut t2: Vec<u32> = text[..l + 1].to_vec();
+                            t2.push(sur);
+                            t2.extend(digits.iter().map(|b| *b as u32));
+                            for cap in [0usize, 17] {
+                                st.evals += 1;
+                                let mut h = crate::drive_enc::EncHistory::simple(enc, crate::drive_enc::Src::Utf16, true, &t2);
+                                if cap > 0 {
+                                    h.caps = vec![cap];
+                                }
+                                let o = edrv.run(&h);
+                                if !o.completed || !o.out.ends_with(digits) {
+                                    return Some(format!("is_ascii_compatible() = true but the ASCII characters after U+{:04X} and an unpaired surrogate U+{:04X} (UTF-16 source) do not encode to themselves: text [{}] gives {}", x, sur, fw::hex32(&t2), fw::hex(&o.out)));
+                                }
+                            }
+                        }
+                    }
                     for src in [crate::drive_enc::Src::Utf8, crate::drive_enc::Src::Utf16] {
                         for cap in [14usize, 15, 17, 24, 64] {
                             st.evals += 1;
